@@ -443,15 +443,24 @@ func solveWith(solvers []solverSpec, file string, quickS, fullS int) solveResult
 		go func() { ch <- runSolver(ctx, sp, file, fullS) }()
 	}
 	var best solveResult = first
+	nerr := 0
 	for range solvers {
 		r := <-ch
 		if r.status == "unsat" || r.status == "sat" {
 			// prefer unsat/sat; a "sat" on quantified problems from one solver while another says unsat is a disagreement
 			return r
 		}
-		if best.status == "" || (r.status == "unknown" && best.status != "unknown") {
+		if r.status == "error" {
+			nerr++
+		}
+		if best.status == "" || (r.status == "unknown" && best.status != "unknown") || (best.status == "error" && r.status != "error") {
 			best = r
 		}
+	}
+	// "error" is reported only when EVERY solver rejected the query (it is ill-formed: the contract does not fit the
+	// source it was evaluated against); one solver's parse problem next to another's timeout is a timeout
+	if best.status == "error" && nerr < len(solvers) {
+		best.status = "unknown"
 	}
 	return best
 }
@@ -511,7 +520,7 @@ func dischargeAll(obls []*Obligation, prelude string, par, quickS, fullS int, ke
 	var rwg sync.WaitGroup
 	for _, o := range obls {
 		o := o
-		if o.Status == "unsat" || o.Status == "sat" || o.queryFile == "" || o.Cover || o.NoRetry {
+		if o.Status == "unsat" || o.Status == "sat" || o.Status == "error" || o.queryFile == "" || o.Cover || o.NoRetry {
 			continue
 		}
 		rwg.Add(1)
